@@ -31,6 +31,16 @@ func (a Action) String() string {
 		return "p:" + strings.Join(s, ",")
 	case "a":
 		return "a:" + strconv.Itoa(a.IDs[0])
+	case "X": // key: 0 = common difference, 2 + channel id
+		p := make([]string, len(a.IDs))
+		for i, x := range a.IDs {
+			p[i] = strconv.Itoa(x)
+		}
+		k := int64(0)
+		if a.C != 0 {
+			k = 2 + a.C
+		}
+		return "X:" + strconv.FormatInt(k, 10) + ":" + strings.Join(p, ",")
 	case "CT", "CTL", "z":
 		return a.Op + ":" + strconv.FormatInt(a.C, 10)
 	}
@@ -79,6 +89,15 @@ type Outcome struct {
 	Panics  []string
 	Elapsed time.Duration
 	Retries int
+}
+
+// tracked: the entry belongs to a sequence the manager tracks (or has no sequence).
+func (w *World) tracked(en Entry) bool {
+	if en.Kind == KChMsg || en.Kind == KChOther || en.Kind == KChAff {
+		_, ok := w.C0[en.Chan]
+		return ok
+	}
+	return true
 }
 
 func (w *World) entry(id int) (Entry, int, bool) {
@@ -130,6 +149,14 @@ func (e *Env) apply(a Action) {
 		}
 		w.mu.Unlock()
 		e.Affected(a.C, p, 0)
+	case "X": // the next (channel C / common) difference answer forwards these entries too
+		w.mu.Lock()
+		seq := "pts"
+		if a.C != 0 {
+			seq = "c" + strconv.FormatInt(a.C, 10)
+		}
+		w.Extra[seq] = append([]int(nil), a.IDs...)
+		w.mu.Unlock()
 	case "T":
 		e.Push(&tg.UpdatesTooLong{})
 	case "CT":
@@ -139,6 +166,10 @@ func (e *Env) apply(a Action) {
 		tl := &tg.UpdateChannelTooLong{ChannelID: a.C}
 		tl.SetPts(p)
 		e.Push(&tg.Updates{Updates: []tg.UpdateClass{tl}})
+		// If this difference will forward foreign updates, the worker hands them over with sendOut,
+		// whose drain may swallow anything queued behind it — also a harness barrier. Wait until the
+		// answer has been served (from then on chanBarrier waits for the worker to finish it).
+		e.waitExtrasServed("c" + strconv.FormatInt(a.C, 10))
 	case "W":
 		time.Sleep(650 * time.Millisecond)
 	case "F": // every armed gap timer fires now (hook); wait until the owners have reacted
@@ -325,7 +356,7 @@ func CheckC03(w *World, trace []Event, from Snapshot) []Violation {
 	}
 	check := func(i int, seq string, val int) {
 		for _, en := range w.Log {
-			if en.Seq() != seq || en.Pos > val || en.Pos <= base(seq) || dispatched[en.ID] || tooLong[seq] || en.IsMarker() {
+			if en.Seq() != seq || en.Pos > val || en.Pos <= base(seq) || dispatched[en.ID] || tooLong[seq] || en.IsMarker() || !w.tracked(en) {
 				continue
 			}
 			if en.Count == 0 && !carried[en.ID] {
@@ -408,7 +439,7 @@ func CheckC02(w *World, trace []Event, pushedPlain map[int]bool, alreadyDelivere
 	}
 	seen := map[string]bool{}
 	for _, en := range w.Log {
-		if dispatched[en.ID] || en.IsMarker() {
+		if dispatched[en.ID] || en.IsMarker() || !w.tracked(en) {
 			continue
 		}
 		if en.Kind != KPlain && en.Count == 0 {
@@ -525,11 +556,11 @@ func CheckOrder(w *World, trace []Event, from Snapshot) []Violation {
 			}
 			for _, id := range ev.IDs {
 				en, _, ok := w.entry(id)
-				if !ok || en.Kind == KPlain || tooLong[en.Seq()] {
+				if !ok || en.Kind == KPlain || tooLong[en.Seq()] || !w.tracked(en) {
 					continue
 				}
 				for _, f := range w.Log {
-					if f.Seq() == en.Seq() && f.Pos <= en.Pos-en.Count && f.Pos > base(f) && !dispatched[f.ID] && !f.Soft() {
+					if f.Seq() == en.Seq() && f.Pos <= en.Pos-en.Count && f.Pos > base(f) && !dispatched[f.ID] && !f.Soft() && w.tracked(f) {
 						key := "c01-manager-skipped-position"
 						if cl := classify(w, f); cl != "" {
 							key = "c01-manager-" + cl
